@@ -1,6 +1,6 @@
 """C04 — striping is a lossless, backend-independent rearrangement of the sequence (structural clauses)."""
 from fractions import Fraction
-from lm import lanes as LN, expr as X, guards as G
+from lm import lanes as LN, expr as X, guards as G, iteralg as IA
 from lm.lanes import Vec, Ptr, lane
 from lm.match import norm, m
 from lm.db import short
@@ -116,46 +116,121 @@ def r41_42(db, ctx):
         ctx.ok('R4.2', f, 'src += 32; out += 32*stride; i += 32; s = (len+31)/32 = matrix rows', ['lock-step'])
 
 
+def _normal_exits(f, L):
+    """Exit edges of a natural loop that can still reach a return (panic / unwind edges ignored)."""
+    can = f.postdominators()
+    return [(x, y) for x, y in L['exits'] if y in can]
+
+
+def _loop_with_header_or_iter(f, R, lid):
+    """Natural loop for an iteralg loop id (the local holding the iterator) or a header block."""
+    h = common.loop_of_elem(f, ('elem', None, lid))
+    for L in f.loops():
+        if L['header'] == h:
+            return L
+    return None
+
+
+def _is_stride32(e):
+    """Exactly (len(seq) + 31) / 32, the number of rows of the striped matrix."""
+    b = m(('bin', 'Div', '$n', '$c'), norm(e))
+    if b is None or X.lin(b['$c']) != {'': Fraction(32)}:
+        return False
+    return any(X.lin_eq(b['$n'], ('bin', 'Add', L, ('k', 31))) for L in (('call', 'core::slice::len', (('p', 1),)), ('len', ('p', 1))))
+
+
+def _subterms(e):
+    if isinstance(e, tuple):
+        if e and isinstance(e[0], str):
+            yield e
+        for x in e:
+            if isinstance(x, tuple):
+                yield from _subterms(x)
+
+
 def r43(db, ctx):
     ctx.rule('R4.3', 'AVX2 scalar tail matrix[i][j] = s[j*s + i] under j*s + i < len for the remaining rows, and fill of cells len..C*R with the default symbol at (k mod R, k div R)')
     f = db.fn(AVX2 + 'stripe_avx2')
     R = X.Rec(f)
-    st = [s for s in X.stores(f, R) if norm(s['target'])[0] == 'idx' and norm(s['target'])[1][0] == 'call' and norm(s['target'])[1][1].endswith('index_mut')]
-    tail = None
-    fill = None
-    for s in st:
-        tg, v = norm(s['target']), norm(s['value'])
-        row, col = tg[1][2][1], tg[2]
-        if v[0] == 'idx' or (v[0] == 'call' and v[1].endswith('::index')):
-            tail = (s, row, col, v)
-        elif v[0] == 'call' and v[1].endswith('Default::default'):
-            fill = (s, row, col, v)
-    probs = []
+    C = IA.Canon(f, R)
+    tail = fill = None
+    for s in X.stores(f, R):
+        tg = C.canon(s['target'])
+        if not (tg[0] == 'at' and tg[1][0] == 'at' and tg[1][1][0] in ('v', 'p') and 'DenseMatrix<' in f.local_ty(tg[1][1][1])):
+            continue
+        v = C.canon(s['value'])
+        M, row, col = tg[1][1], tg[1][2], tg[2]
+        if v[0] == 'at' and norm(v[1]) == ('p', 1):
+            tail = (s, M, row, col, v[2], 'index')
+        else:
+            g = m(('fld', ('down', ('call~', 'slice::get', (('p', 1), '$i')), 'Some'), '0'), v)
+            if g is not None:
+                tail = (s, M, row, col, g['$i'], 'get')
+            elif v[0] == 'call' and v[1].endswith('Default::default') and not v[2]:
+                fill = (s, M, row, col)
     if not tail or not fill:
         ctx.fail('R4.3', f, 'tail / fill', f'reason=unrecognised-shape: tail={tail is not None}, fill={fill is not None}')
         return
-    s, row, col, v = tail
-    src_idx = v[2] if v[0] == 'idx' else v[2][1]
-    l = X.lin(src_idx)
-    ks = {k: vv for k, vv in l.items() if k != ''}
-    prod = [k for k in ks if k.startswith('(') and 'Div 32' in k]
-    okt = l.get('', 0) == 0 and len(ks) == 2 and all(vv == 1 for vv in ks.values()) and len(prod) == 1 and X.canon(col) in prod[0] and X.canon(row) in ks
-    if not okt:
-        probs.append(f'tail copies s[{X.show(src_idx, 80)}] into [{X.show(row, 30)}][{X.show(col, 30)}], expected s[j*s + i] into [i][j]')
-    rels = G.relations(f, R, s['block'])
-    if not G.holds(rels, 'lt', lambda e: X.canon(e) == X.canon(src_idx), lambda e: common.is_len_of(e, ('p', 1))):
-        probs.append('tail copy is not guarded by j*s + i < len')
-    if not (col[0] == 'elem' and norm(col[1][2][0]) == ('k', 0) and norm(col[1][2][1]) == ('k', 32)):
-        probs.append('tail does not visit columns 0..32')
-    s2, row2, col2, v2 = fill
+    probs = []
+    # the row counter of the vector loop: the local advanced by 32 per block (R4.2 proves its bookkeeping)
+    cnts = [l for l, ds in f.defs().items() if any(si != 'term' and m(('bin', 'Add', ('v', l), ('k', 32)), norm(R.rvalue(x))) is not None for _, si, x in ds)]
+    s, M, row, col, src_idx, how = tail
+    strides = [e for e in _subterms(src_idx) if _is_stride32(e)]
+    if not strides or not X.lin_eq(src_idx, ('bin', 'Add', ('bin', 'Mul', col, strides[0]), row)):
+        probs.append(f'tail copies s[{X.show(src_idx, 80)}] into [{X.show(row, 30)}][{X.show(col, 30)}], expected s[j*s + i] into [i][j] with s = (len+31)/32')
+    if how == 'index':
+        rels = G.relations(f, R, s['block'])
+        ci = X.canon(src_idx)
+        if not G.holds(rels, 'lt', lambda e: X.canon(C.canon(e)) == ci, lambda e: common.is_len_of(e, ('p', 1))):
+            probs.append('tail copy is not guarded by j*s + i < len')
+    # columns: all 32 of the row
+    ext = C.extents.get(col[1]) if IA.is_pos(col) else None
+    if not (ext and len(ext) == 1 and (ext[0] == ('sub', ('k', 32), ('k', 0)) or ext[0] == ('len', ('at', M, row)))):
+        probs.append(f'tail does not visit columns 0..32 (column extent {ext})')
+    else:
+        Lc = _loop_with_header_or_iter(f, R, col[1])
+        if Lc is None or len(_normal_exits(f, Lc)) != 1:
+            probs.append('tail column loop can be left early')
+    # rows: from where the vector blocks stopped up to matrix.rows()
+    rows_ok = False
+    if len(cnts) == 1:
+        cnt = cnts[0]
+        if norm(row) == ('v', cnt):
+            # while i < rows { .. i += 1 }
+            inner = [L for L in f.loops() if s['block'] in L['body']]
+            cand = [L for L in inner if any(d[0] in L['body'] and d[1] != 'term' and m(('bin', 'Add', ('v', cnt), ('k', 1)), norm(R.rvalue(d[2]))) is not None
+                                              for d in f.defs().get(cnt, []))]
+            if cand:
+                Lr = max(cand, key=lambda L_: len(L_['body']))
+                incs = [d for d in f.defs().get(cnt, []) if d[0] in Lr['body']]
+                rels = G.relations(f, R, s['block'])
+                guard = G.holds(rels, 'lt', lambda e: norm(e) == ('v', cnt), lambda e: common.is_call_on(e, 'DenseMatrix::rows', M))
+                ex = _normal_exits(f, Lr)
+                rows_ok = len(incs) == 1 and all(f.dominates(incs[0][0], lt) for lt in Lr['latches']) and guard is not None \
+                    and len(ex) == 1 and len(f.defs().get(cnt, [])) == 3 and f.dominates(guard[-1], incs[0][0]) and guard[-1] == ex[0][0]
+        else:
+            b = m(('bin', 'Add', ('v', cnt), ('pos', '$L')), row)
+            if b is not None and len(f.defs().get(cnt, [])) == 2:
+                e = C.extents.get(b['$L'])
+                Lr = _loop_with_header_or_iter(f, R, b['$L'])
+                rows_ok = bool(e) and len(e) == 1 and e[0][0] == 'sub' and e[0][2] == ('v', cnt) and common.is_call_on(e[0][1], 'DenseMatrix::rows', M) \
+                    and Lr is not None and len(_normal_exits(f, Lr)) == 1
+    if not rows_ok:
+        probs.append(f'tail rows [{X.show(row, 60)}] do not run from the block counter to matrix.rows()')
+    s2, M2, row2, col2 = fill
     b = m(('bin', 'Rem', '$k', '$r'), row2)
     c = m(('bin', 'Div', '$k', '$r'), col2)
-    if b is None or c is None or b != c or 'Div 32' not in X.canon(b['$r']):
+    if b is None or c is None or b != c or not _is_stride32(b['$r']) or M2 != M:
         probs.append(f'fill writes [{X.show(row2, 40)}][{X.show(col2, 40)}], expected [k % s][k / s]')
     else:
         k = b['$k']
-        if not (k[0] == 'elem' and common.is_len_of(k[1][2][0], ('p', 1)) and common.is_product_of_calls(k[1][2][1], ['DenseMatrix::columns', 'DenseMatrix::rows'])):
-            probs.append(f'fill range is {X.show(k[1], 100)}, expected len .. columns*rows')
+        kb = m(('bin', 'Add', '$lo', ('pos', '$L')), k)
+        e = C.extents.get(kb['$L']) if kb is not None else None
+        Lf = _loop_with_header_or_iter(f, R, kb['$L']) if kb is not None else None
+        if not (e and len(e) == 1 and e[0][0] == 'sub' and e[0][2] == kb['$lo'] and common.is_len_of(kb['$lo'], ('p', 1))
+                and common.is_product_of_calls(e[0][1], ['DenseMatrix::columns', 'DenseMatrix::rows'])
+                and Lf is not None and len(_normal_exits(f, Lf)) == 1):
+            probs.append(f'fill range is {X.show(k, 100)} over {e}, expected len .. columns*rows')
     # rebuild through StripedSequence::new
     if not any((f.callee_short(t) or '').endswith('StripedSequence::new') for _, t in f.calls()):
         probs.append('result is not rebuilt through StripedSequence::new')
@@ -306,14 +381,21 @@ def r45(db, ctx):
     if not (l.get('', 0) == 0 and len(ks) == 3 and any('DenseMatrix::rows' in k and v == 1 for k, v in ks.items()) and ks.get('arg2') == 1 and any('wrap' in k and v == -1 for k, v in ks.items())):
         probs.append(f'resize to {X.show(ra, 80)}, expected rows + m - wrap')
     # R computed before the resize
-    rows_local = [l_ for l_ in range(len(f.locals)) if f.local_name(l_) == 'rows']
+    # every evaluation of `rows() - wrap` (whatever the variable is called) happens before the resize call: a value computed after it
+    # would already include the new rows
     pre = False
-    for l_ in rows_local:
+    late = False
+    for l_ in range(len(f.locals)):
         for (bi, si, d) in f.defs().get(l_, []):
-            if f.dominates(bi, rs[0][0]) and bi != rs[0][0]:
-                e = norm(R.rvalue(d)) if si != 'term' else None
-                if e is not None and m(('bin', 'Sub', ('call~', 'DenseMatrix::rows', ('_',)), ('fld', ('p', 1), 'wrap')), e) is not None:
-                    pre = True
+            e = norm(R.rvalue(d)) if si != 'term' else None
+            # an evaluation of the subtraction (checked or unchecked), not a copy of a variable that holds its result
+            evaluates = si != 'term' and (d.get('k') == 'bin' or (d.get('k') == 'use' and ((d['a'].get('m') or d['a'].get('c') or {}).get('pr'))))
+            if evaluates and e is not None and m(('bin', 'Sub', ('call~', 'DenseMatrix::rows', ('_',)), ('fld', ('p', 1), 'wrap')), e) is not None:
+                if f.dominates(bi, rs[0][0]):
+                    pre = True          # statements of the resize call's own block run before its terminator
+                else:
+                    late = True
+    pre = pre and not late
     if not pre:
         probs.append('the number of sequence rows R = rows - wrap is not computed before the resize')
     copy = dflt = None
